@@ -11,6 +11,7 @@ import (
 
 func (r *Run) call(endpoint string, f func() *Resp) *Resp {
 	r.W.Store.TxTrace = nil
+	r.writeMark = len(r.W.Store.WriteLog)
 	res := f()
 	if len(r.Fault.specs) > 0 && r.Fault.specs[0].Kind == "trace-only" {
 		r.logf("TRACE %s", strings.ReplaceAll(strings.Join(res.Trace, " "), ":ERR", ""))
@@ -370,7 +371,7 @@ func (r *Run) judgeRedeem(st Step, code *Cred, cs *ClientSpec, res *Resp, sentRe
 	now := r.now()
 	tokens := res.HasTokens()
 	owner := r.specByID(g.Client)
-	authOK := authValid(cs, st.A)
+	authOK := r.authOK(cs, st.A)
 	exp, _ := r.L.Expect(code, now)
 	desc := fmt.Sprintf("redeem %s by %s auth=%s redir=%s ver=%s", code.Name(), cs.ID, orOK(st.A), orSame(st.p("redir")), verKind)
 	if mutated {
@@ -406,6 +407,8 @@ func (r *Run) judgeRedeem(st Step, code *Cred, cs *ClientSpec, res *Resp, sentRe
 		} else if !faulted && res.ErrName != "invalid_client" && res.ErrName != "invalid_request" {
 			r.violate("C10", "wrong-error-class", "authorization_code", "%s: expected invalid_client/invalid_request, got %s", desc, res.ErrName)
 		}
+		r.probe("bad-client-auth:authorization_code")
+		r.noWrites("authorization_code", desc)
 		r.probeGrant(g, "after a request with invalid client authentication")
 		return
 	}
@@ -627,7 +630,7 @@ func (r *Run) judgeRefresh(st Step, rt *Cred, cs *ClientSpec, res *Resp, mutated
 	g := rt.G
 	now := r.now()
 	tokens := res.HasTokens()
-	authOK := authValid(cs, st.A)
+	authOK := r.authOK(cs, st.A)
 	exp, why := r.L.Expect(rt, now)
 	desc := fmt.Sprintf("refresh %s(gen %d, %s) by %s auth=%s", rt.Name(), rt.Gen, rt.State, cs.ID, orOK(st.A))
 	if mutated {
@@ -660,6 +663,8 @@ func (r *Run) judgeRefresh(st Step, rt *Cred, cs *ClientSpec, res *Resp, mutated
 		} else if !faulted && res.ErrName != "invalid_client" && res.ErrName != "invalid_request" {
 			r.violate("C10", "wrong-error-class", "refresh_token", "%s: expected invalid_client/invalid_request, got %s", desc, res.ErrName)
 		}
+		r.probe("bad-client-auth:refresh_token")
+		r.noWrites("refresh_token", desc)
 		r.probeGrant(g, "after a request with invalid client authentication")
 		return
 	}
@@ -854,7 +859,7 @@ func (r *Run) opPassword(st Step) {
 	if res.Crashed {
 		return
 	}
-	if !authValid(cs, st.A) {
+	if !r.authOK(cs, st.A) {
 		r.judgeBadAuth("password", desc, res)
 		return
 	}
@@ -887,6 +892,10 @@ func outcomeOf(res *Resp) string {
 }
 
 func (r *Run) judgeBadAuth(kind, desc string, res *Resp) {
+	r.probe("bad-client-auth:" + kind)
+	if !res.Crashed {
+		r.noWrites(kind, desc)
+	}
 	if res.HasTokens() {
 		r.violate("C10", "tokens-without-client-auth", kind, "%s: tokens issued although client authentication was invalid", desc)
 	} else if !r.anyFault() && res.ErrName != "invalid_client" && res.ErrName != "invalid_request" {
@@ -915,7 +924,7 @@ func (r *Run) opClientCredentials(st Step) {
 	if cs.Public && tokens {
 		r.violate("C10", "public-client-credentials", "", "%s: a public client obtained tokens through client_credentials", desc)
 	}
-	if !authValid(cs, st.A) {
+	if !r.authOK(cs, st.A) {
 		r.judgeBadAuth("client_credentials", desc, res)
 		return
 	}
@@ -1162,8 +1171,13 @@ func (r *Run) opRevoke(st Step) {
 	}
 	exp, _ := r.L.Expect(c, r.now())
 	switch {
-	case !authValid(cs, st.A):
+	case !r.authOK(cs, st.A):
 		r.probe("revoke-unauthenticated")
+		r.probe("bad-client-auth:revoke")
+		r.noWrites("revoke", desc)
+		if !r.anyFault() && res.ErrName != "invalid_client" && res.ErrName != "invalid_request" && res.Err != nil {
+			r.violate("C10", "wrong-error-class", "revoke", "%s: expected invalid_client/invalid_request, got %s", desc, res.ErrName)
+		}
 		if res.Err == nil {
 			r.violate("C08", "revocation-accepted-unauthenticated", orOK(st.A), "%s: accepted", desc)
 		}
